@@ -155,6 +155,10 @@ class Gmx1Adapter:
             for cls in ("part", "all", "over", "0", "dust"):
                 out.append(Op(f"{n}.sell_glp[{t.name},{cls}]", lambda c, t=t, cls=cls: m.sell_glp(t, amount(cls, m.glp_amount)),
                               cls in DEVIANT or t == WAVAX, f"{n}.sell_glp"))
+        # a payout token the pool does not list (nothing is known about its price / weight in the pool data): refused, the GLP stays where it is
+        nope = TokenInfo("NOPE", 18)
+        out.append(Op(f"{n}.sell_glp[NOPE,part]", lambda c: m.sell_glp(nope, amount("part", m.glp_amount)), True, f"{n}.sell_glp"))
+        out.append(Op(f"{n}.buy_glp[NOPE,part]", lambda c: m.buy_glp(nope, Decimal(1)), True, f"{n}.buy_glp"))
         return out
 
 
